@@ -140,3 +140,135 @@ pub fn deep_case(case: &Value, _dispatch: Dispatch, r: &mut Report) {
         other => panic!("deep family {other}"),
     }
 }
+
+// ---------------------------------------------------------------------------------------------
+// C18, schedule "all calls at their deepest point at the same time": a leaf codec that parks the
+// decoding (or encoding) thread until every participating thread has arrived there.
+pub struct Rendezvous {
+    pub expected: usize,
+    pub arrived: std::sync::atomic::AtomicUsize,
+}
+pub static GATE: std::sync::RwLock<Option<Arc<Rendezvous>>> = std::sync::RwLock::new(None);
+fn park() {
+    let g = GATE.read().unwrap().clone();
+    if let Some(g) = g {
+        use std::sync::atomic::Ordering::SeqCst;
+        g.arrived.fetch_add(1, SeqCst);
+        let t0 = std::time::Instant::now();
+        while g.arrived.load(SeqCst) < g.expected && t0.elapsed().as_secs() < 10 {
+            std::thread::yield_now();
+        }
+    }
+}
+#[derive(PartialEq, Debug, Clone, Copy)]
+pub struct Gate(pub u8);
+impl BinarySerializer for Gate {
+    fn serialize<O: desert::BinaryOutput>(&self, c: &mut desert::SerializationContext<O>) -> desert::Result<()> {
+        desert::BinaryOutput::write_u8(c, self.0);
+        if self.0 == 1 {
+            park();
+        }
+        Ok(())
+    }
+}
+impl BinaryDeserializer for Gate {
+    fn deserialize(c: &mut DeserializationContext<'_>) -> desert::Result<Self> {
+        let f = desert::BinaryInput::read_u8(c)?;
+        if f == 1 {
+            park();
+        }
+        Ok(Gate(f))
+    }
+}
+#[derive(desert_macro::BinaryCodec, PartialEq, Debug)]
+#[evolution(FieldAdded("label", 0))]
+pub struct GEvo {
+    pub v: u8,
+    pub gate: Gate,
+    pub next: Option<Box<GEvo>>,
+    pub label: u8,
+}
+#[derive(desert_macro::BinaryCodec, PartialEq, Debug)]
+pub enum GEnum {
+    Leaf(Gate),
+    Node { l: u8, r: Box<GEnum> },
+}
+fn gevo(d: u64) -> GEvo {
+    let mut cur = GEvo { v: 1, gate: Gate(1), next: None, label: 7 };
+    for n in 2..=d {
+        cur = GEvo { v: (n % 256) as u8, gate: Gate(0), next: Some(Box::new(cur)), label: ((7 * n) % 256) as u8 };
+    }
+    cur
+}
+fn genum(d: u64) -> GEnum {
+    let mut cur = GEnum::Leaf(Gate(1));
+    for n in 2..=d {
+        cur = GEnum::Node { l: (n % 256) as u8, r: Box::new(cur) };
+    }
+    cur
+}
+
+/// Every thread encodes and decodes a value nested `depth` levels; all threads wait for each other at the
+/// innermost level.  Each call must give what the same call gives alone.  Returns descriptions of deviations.
+pub fn parked_calls(threads: usize, depth: u64) -> Vec<Value> {
+    fn run<T: BinarySerializer + BinaryDeserializer + PartialEq + std::fmt::Debug + Send + Sync + 'static>(
+        name: &'static str,
+        v: T,
+        threads: usize,
+    ) -> Vec<Value> {
+        *GATE.write().unwrap() = None;
+        let alone = match guarded(|| serialize_to_byte_vec(&v)) {
+            Ok(Ok(b)) => b,
+            other => return vec![json!({"what": "the call alone failed", "ty": name, "got": format!("{other:?}")})],
+        };
+        match guarded(|| deserialize::<T>(&alone)) {
+            Ok(Ok(x)) if x == v => {}
+            other => return vec![json!({"what": "the decode alone failed", "ty": name, "got": format!("{:?}", other.map(|r| r.map(|_| ())))})],
+        }
+        let v = Arc::new(v);
+        let alone = Arc::new(alone);
+        let mut bad = Vec::new();
+        for phase in ["decode", "encode"] {
+            *GATE.write().unwrap() = Some(Arc::new(Rendezvous { expected: threads, arrived: std::sync::atomic::AtomicUsize::new(0) }));
+            let hs: Vec<_> = (0..threads)
+                .map(|_| {
+                    let (v, alone) = (v.clone(), alone.clone());
+                    std::thread::Builder::new()
+                        .stack_size(16 << 20)
+                        .spawn(move || {
+                            crate::ops::install_panic_hook();
+                            if phase == "decode" {
+                                match guarded(|| deserialize::<T>(&alone)) {
+                                    Ok(Ok(x)) if x == *v => None,
+                                    Ok(Ok(_)) => Some("a different value".to_string()),
+                                    Ok(Err(e)) => Some(e.to_string()),
+                                    Err(p) => Some(format!("panic: {p}")),
+                                }
+                            } else {
+                                match guarded(|| serialize_to_byte_vec(&*v)) {
+                                    Ok(Ok(b)) if b == *alone => None,
+                                    Ok(Ok(_)) => Some("different bytes".to_string()),
+                                    Ok(Err(e)) => Some(e.to_string()),
+                                    Err(p) => Some(format!("panic: {p}")),
+                                }
+                            }
+                        })
+                        .unwrap()
+                })
+                .collect();
+            for (t, h) in hs.into_iter().enumerate() {
+                match h.join() {
+                    Ok(None) => {}
+                    Ok(Some(why)) => bad.push(json!({"what": "a call that succeeds alone gives another result while other threads are inside their calls",
+                                                     "ty": name, "phase": phase, "thread": t, "threads": threads, "got": why})),
+                    Err(_) => bad.push(json!({"what": "thread died", "ty": name, "phase": phase, "thread": t})),
+                }
+            }
+            *GATE.write().unwrap() = None;
+        }
+        bad
+    }
+    let mut bad = run("GEvo (header at every level)", gevo(depth), threads);
+    bad.extend(run("GEnum (headerless)", genum(depth), threads));
+    bad
+}
